@@ -124,7 +124,13 @@ pub fn build_api(sp: &ServerPlan) -> ApiDescription<SimCtx> {
 
 pub fn version_policy(sp: &ServerPlan) -> Option<dropshot::VersionPolicy> {
     match sp.api {
-        ApiKind::EchoVersioned | ApiKind::ErrVersioned | ApiKind::SinkVersioned => {
+        ApiKind::ErrVersioned => Some(dropshot::VersionPolicy::Dynamic(Box::new(err::ScriptedVersionPolicy(
+            dropshot::ClientSpecifiesVersionInHeader::new(
+                http::HeaderName::from_static("x-api-version"),
+                semver::Version::new(9, 9, 9),
+            ),
+        )))),
+        ApiKind::EchoVersioned | ApiKind::SinkVersioned => {
             Some(dropshot::VersionPolicy::Dynamic(Box::new(
                 dropshot::ClientSpecifiesVersionInHeader::new(
                     http::HeaderName::from_static("x-api-version"),
